@@ -466,6 +466,51 @@ def fixed_battery(env, res, hist, obj_max):
     return n
 
 
+# ------------------------------------------------------------------ memorize (utils.memorize is outside the fragment)
+
+def appended_list_size(k):
+    """sys.getsizeof of a list after k appends (what `yielded` of a RememberingIterator is after k pulls)"""
+    lst = []
+    out = []
+    for i in range(k):
+        lst.append(i)
+        out.append(sys.getsizeof(lst, 0))
+    return out
+
+
+def memorize_battery(env, res, hist, obj_max):
+    """`range(k).memorize().len()`: the list of remembered items is measured after every pull (Limits.memorizeStep,
+    C08.memorize_bounded): MemoryQuotaExceededException exactly when that list outgrows the quota.  The list is state of
+    an iterator the library hands out, never a value passed on: a disagreement is a mismatch, not a failing input."""
+    rl = real()
+    drv = env['driver']
+    n = 0
+    for k in (30, 100, 400):
+        sizes = appended_list_size(k)
+        top = max(sizes)
+        for Q in sorted({top - 1, top, top + 64, max(obj_max, sizes[k // 2])}):
+            if Q < obj_max:
+                continue
+            text = 'range(%d).memorize().len()' % k
+            out, _obs = rl.run(text, {}, None, Q)
+            refused = any(sz > Q for sz in sizes)
+            if drv is not None:
+                m = drv.ask({'p': 'C08', 'cases': [{'op': 'mem', 'Q': str(Q), 'args': [['1', sz]]} for sz in sizes]})['res']
+                model_refused = not all(x['passes'] for x in m)
+                res.traces += 1
+                if model_refused != refused:
+                    res.fail('mismatch', 'eval:memorize', 'memorize of %d items under quota %d: Limits.limitMemory says %s, the '
+                             'transcription %s' % (k, Q, model_refused, refused), {'part': PART, 'memorize': k, 'Q': Q})
+            expect = ('err', 'Quota') if refused else ('ok', k)
+            n += 1
+            res.case('V' + common.digest([text, Q, 'memorize']), True)
+            bump(hist, 'memorize:' + outcome_class(out))
+            if not c04.same(out, expect):
+                res.fail('mismatch', 'eval:memorize', '`%s` with memoryQuota=%d (the remembered list grows to %d bytes): real %s, '
+                         'expected %s' % (text, Q, top, c04.show(out), c04.show(expect)), {'part': PART, 'memorize': k, 'Q': Q})
+    return n
+
+
 # ------------------------------------------------------------------ entry points
 
 def obj_max_of(env):
@@ -482,7 +527,7 @@ def start(env):
     if tier == 'quick':
         nproc, per, depth, lims = 4, 800, 4, 4
     else:
-        nproc, per, depth, lims = 6, 5000, 5, 6
+        nproc, per, depth, lims = 6, 3000, 5, 6
     obj_max = obj_max_of(env)
     jobs = [(i, per, env['seed'], depth, env['driver'] is not None, obj_max, lims) for i in range(nproc)]
     pool = multiprocessing.Pool(nproc)
@@ -519,6 +564,7 @@ def finish(handle, env, res, hist):
         raise RuntimeError('non-data objects larger than objMax=%d reach limit_memory_usage: %r (harness/gens/evalsizes.py '
                            'BATTERY does not cover them)' % (obj_max, too_big))
     n_fixed = fixed_battery(env, res, agg['real'], obj_max)
+    n_fixed += memorize_battery(env, res, agg['real'], obj_max)
     hist.update(dict(programs=programs, runs=runs, fixed_programs=n_fixed, programs_with_toDict=todict,
                      limits_drawn=agg['lim_kind'], real_outcome_by_limit_kind=agg['real'], model_outcome=agg['model'],
                      real_vs_model=agg['pairs'], document_inflation=agg['inflate'],
@@ -527,6 +573,9 @@ def finish(handle, env, res, hist):
 
 
 def replay(env, res, case):
+    if 'memorize' in case:
+        memorize_battery(env, res, {}, obj_max_of(env))
+        return
     rl = real()
     ast, doc = c04.unwire(case['ast']), c04.dec_doc(case['doc'])
     N, Q = case['N'], case['Q']
